@@ -602,3 +602,77 @@ let () = register "c08spec" (fun line ->
       Some (Printf.sprintf "%d=%s[%s]" i (dec_of_n c.ConfigStore.cid) (S.concat "," hs))
     | _ -> None) names in
   S.concat " " (L.sort compare rows))
+
+(* ---------------- C03 / C01: programs against a stable cluster ---------------- *)
+type c03_case = { c3_mode : string; c3_nodes : int; c3_layout : int array; c3_reqs : (int * Resp.resp) list }
+
+let c03_parse (line : string) : c03_case =
+  let (hd, tl) = match Str.bounded_split_delim (Str.regexp_string " # ") line 2 with
+    | [a; b] -> (a, b) | [a] -> (a, "") | _ -> failwith "bad c03 line" in
+  let f = Array.of_list (L.filter (fun x -> x <> "") (S.split_on_char ' ' hd)) in
+  let layout = Array.make 16384 0 in
+  L.iter (fun r -> Scanf.sscanf r "%d-%d=%d" (fun lo hi n -> for s = lo to hi do layout.(s) <- n done)) (S.split_on_char ',' f.(2));
+  let reqs = L.filter_map (fun rq ->
+    let rq = S.trim rq in
+    if rq = "" then None else
+    let i = S.index rq ':' in
+    let cn = int_of_string (S.sub rq 0 i) in
+    let toks = Array.of_list (L.filter (fun x -> x <> "") (S.split_on_char ' ' (S.sub rq (i + 1) (S.length rq - i - 1)))) in
+    Some (cn, parse_val toks (ref 0))) (Str.split (Str.regexp_string " ; ") tl) in
+  { c3_mode = f.(0); c3_nodes = int_of_string f.(1); c3_layout = layout; c3_reqs = reqs }
+
+let c03_owner (c : c03_case) (k : coq_N list) : coq_N =
+  Cluster.owner_of Tables.crc16tab (fun s -> n_of_int c.c3_layout.(int_of_n s)) k
+
+let c03_requests (c : c03_case) : (int * Cluster.request) list option =
+  let rs = L.map (fun (cn, v) -> (cn, Cluster.req_of_plan (plan_of v))) c.c3_reqs in
+  if L.exists (fun (_, r) -> r = None) rs then None
+  else Some (L.map (fun (cn, r) -> match r with Some x -> (cn, x) | None -> assert false) rs)
+
+let c03_empty_nodes : coq_N -> coq_N list -> RedisSem.rval option = fun _ _ -> None
+
+let () = register "c03spec" (fun line ->
+  let c = c03_parse line in
+  match c03_requests c with
+  | None -> "NOT-KEYED"
+  | Some rs ->
+    let (_, out) = Cluster.ss_run RedisSem.sem Dispatch.assemble_reply (fun _ -> None) (L.map snd rs) in
+    S.concat " ; " (L.map val_string out))
+
+let () = register "c03" (fun line ->
+  let c = c03_parse line in
+  match c03_requests c with
+  | None -> "NOT-KEYED"
+  | Some rs ->
+    let owner = c03_owner c in
+    let nconn = 1 + L.fold_left (fun a (cn, _) -> max a cn) 0 rs in
+    let progs cn = L.filter_map (fun (x, r) -> if n_of_int x = cn then Some r else None) rs in
+    let st0 = Cluster.init owner c03_empty_nodes progs in
+    let subs r = Cluster.subs_of r in
+    let sched =
+      if c.c3_mode = "seq" then
+        L.concat_map (fun (cn, r) ->
+          let k = n_of_int cn in
+          [Cluster.SRead k] @ L.map (fun _ -> Cluster.SSend k) (subs r)
+          @ L.map (fun s -> Cluster.SExec (owner s.Cluster.sk)) (subs r) @ [Cluster.SWrite k]) rs
+      else
+        (* everything is read and sent first; the nodes answer last node first; then the writers run *)
+        let reads = L.concat_map (fun (cn, r) -> let k = n_of_int cn in Cluster.SRead k :: L.map (fun _ -> Cluster.SSend k) (subs r)) rs in
+        let all_subs = L.concat_map (fun (_, r) -> subs r) rs in
+        let execs = L.concat_map (fun n ->
+          L.filter_map (fun s -> if owner s.Cluster.sk = n_of_int n then Some (Cluster.SExec (n_of_int n)) else None) all_subs)
+          (L.rev (L.init c.c3_nodes (fun i -> i))) in
+        let writes = L.map (fun (cn, _) -> Cluster.SWrite (n_of_int cn)) rs in
+        reads @ execs @ writes in
+    let st = Cluster.run RedisSem.sem owner Dispatch.assemble_reply st0 sched in
+    (* replies in listing order *)
+    let outs = Array.init nconn (fun cn -> ref (Cluster.out (Cluster.conns st (n_of_int cn)))) in
+    let replies = L.map (fun (cn, _) ->
+      match !(outs.(cn)) with x :: t -> outs.(cn) := t; val_string x | [] -> "MISSING") rs in
+    let logs =
+      if c.c3_mode = "conc" then "-"
+      else S.concat " | " (L.init c.c3_nodes (fun n ->
+        S.concat " , " (L.filter_map (fun e ->
+          if owner e.Cluster.e_s.Cluster.sk = n_of_int n then Some (val_string (Resp.Arr (Some e.Cluster.e_s.Cluster.sb))) else None)
+          (Cluster.lin st)))) in
+    S.concat " ; " replies ^ " || " ^ logs ^ " || moved=0 ask=0")
